@@ -1,14 +1,23 @@
 """C04 check configuration."""
+import gen
+
 
 
 def setup(register, COMMON_TB):
     register(
-        "C04", coq="C04", coq_extra=["gen", "ngx"], pkg="./internal/mode/static/", test="TestVerifC04",
+        "C04", coq="C04", coq_extra=["gen", "ngx"], pkg="./internal/mode/static/", test="TestVerifC04", gen=gen.gen_c03,
+        extra=[dict(pkg="./internal/mode/static/", test="TestVerifTmpl")],
         rule="one string leaf of a rich valid state (Gateway, HTTPRoute/GRPCRoute matches and filters, NginxProxy, ClientSettings/Observability/"
              "UpstreamSettings policies, BackendTLSPolicy: 56 leaves) is set to its valid value followed or interrupted by one of 19 hostile payloads "
              "(every payload carries the marker zqx); the real pipeline is run on the benign and on the hostile state and both outputs are parsed "
-             "inside Coq; quick samples 3 payloads per leaf (chosen by the seed), thorough runs the full cross product; every case is non-trivial; distinct = (leaf, value)",
+             "inside Coq; quick samples 3 payloads per leaf (chosen by the seed), thorough runs the full cross product; every case is non-trivial; distinct = (leaf, value)"
+             " Second part (templates, evaluated by ngx/TmplCheck.v): every execution of every text/template of the generator inside the real pipeline is recorded (wrapper installed around the package variables); the model of the template engine (ngx/Tmpl.v) is run on the parse tree regenerated from the source (gen/Templates.v) and on the data obtained by reflection, and must reproduce the text byte for byte; user-controlled string leaves are holes (marked: the marker-carrying benign value of every leaf; spaced: one leaf followed by a space and a word; states: generated states, every plain string leaf of unnamed type that no template constant equals); the symbolic tokenizer run over the chunks must not hit a lexical error, a hole that needs quoting outside quotes, a hole in directive-name position, or an unfinished token",
         trusted_base=COMMON_TB + [
+            "ngx/Tmpl.v: model of text/template execution for the subset the repository uses (truth, field access through pointers and string-keyed maps, "
+            "printing of strings/integers/booleans, and/or/not/eq, variables with scopes, range/else, if/else); anything else is an error and shows as a mismatch",
+            "translator harness/verifutil/tmpl.go (parse tree -> gen/Templates.v, panics on constructs outside the subset; the number of Parse calls in the "
+            "sources below internal/ must equal the number of registered template variables) and reflection of template data into Tmpl.value",
+            "add-only hook files zz_verif_tmpl.go (build tag verif, overlaid) exposing the addresses of the package-level template variables",
             "ngx/Lexer.v: NGINX tokenizer written from the NGINX source/documentation; which directive arguments NGINX interpolates (ngx/Wf.v interpolated_args)",
             "the list of string leaves is hand-enumerated (the fake API server admits any value, i.e. schema validation is bypassed)",
             "status 'reported' is decided by comparing all conditions of all objects between the benign and the hostile run",
